@@ -11,7 +11,7 @@ ID = "C06"
 TITLE = "Voronoi FPS is an exact accelerator: it selects what plain FPS selects"
 TECHNIQUE = 'Hypothesis PBT with harness-owned clock (all 128 calibration outcomes enumerated), brute-force distance oracle checked after every step, differential vs plain FPS'
 LEVEL = 'Generated-input exploration plus a complete enumeration of the timing-calibration outcomes on fixed data sets: the distance table is compared with the true minima after every selection step (wrapper), each selection is a farthest candidate, identical to FPS when tie-free. No absence claim: strength = the counted distinct non-trivial cases in the evidence.'
-BUDGET = {"quick": 500, "thorough": 6000}
+BUDGET = {"quick": 500, "thorough": 15000}
 EXHAUSTIVE_PARTS = {
     "quick": ["2 fixed data sets with more than 1024 points (1100, 1500) through the pruned branch", "all 128 outcomes of the 7-step timing bisection (harness-owned clock) x 2 fixed clustered data sets"],
     "thorough": ["6 fixed data sets with 1100..3000 points", "all 128 outcomes of the 7-step timing bisection (harness-owned clock) x 12 fixed data sets "
